@@ -61,51 +61,69 @@ def monOnce : ObsMonitor Obs (List Nat) where
     | _ => some m
 
 structure HiddenSt where
-  /-- last notification of every recording reference: `(r, v)` with `v = 0` for "gone" -/
-  last : List (Nat × Nat) := []
-  relInv : List Nat := []     -- references whose Release has been invoked
+  /-- resolver entry whose result the last notification of every recording reference delivered
+  (`none` after "gone"). A `resolved = true` notification always delivers the result of the latest
+  resolver return (one resolver at a time; a result is stored before the next entry starts), so the
+  entry is known even when the value is the zero value of `T`. -/
+  last : List (Nat × Option Nat) := []
+  latest : Option Nat := none   -- latest resolver entry that returned
+  relInv : List Nat := []       -- references whose Release has been invoked
+  inval : List Nat := []        -- entries whose released() callback has been called
 deriving Repr
 
-def setLast (l : List (Nat × Nat)) (r v : Nat) : List (Nat × Nat) :=
+def setLast (l : List (Nat × Option Nat)) (r : Nat) (v : Option Nat) : List (Nat × Option Nat) :=
   (r, v) :: l.filter (·.1 != r)
 
 /-- **C08 clause 4 (released only after hidden).** When the release function of entry `k` runs, the
-target container does not hold `k`'s value and no reference that is still held was last told that
-value. -/
+target container does not hold `k`'s value and no reference that is still held was last given `k`'s
+result (whatever the value, the zero value of `T` included); and at a quiescence point no held
+reference is still given the result of an entry whose `released()` was called. -/
 def monHidden : ObsMonitor Obs HiddenSt where
   init := {}
   step := fun m o =>
     match o with
-    | .cbinRefcb r res v _ => some { m with last := setLast m.last r (if res then v else 0) }
+    | .cboutResolver k _ _ _ => some { m with latest := some k }
+    | .cbinRefcb r res _ _ => some { m with last := setLast m.last r (if res then m.latest else none) }
     | .invRelease _ r => some { m with relInv := r :: m.relInv }
+    | .envReleased k => some { m with inval := k :: m.inval }
     | .cbinRel k seen =>
       if seen = k + 1 then none
-      else if m.last.any (fun p => p.2 = k + 1 && !m.relInv.contains p.1) then none
+      else if m.last.any (fun p => p.2 == some k && !m.relInv.contains p.1) then none
+      else some m
+    | .quiesce _ =>
+      if m.last.any (fun p => !m.relInv.contains p.1 && (match p.2 with
+          | some k => m.inval.contains k
+          | none => false)) then none
       else some m
     | _ => some m
 
 structure HeldSt where
-  told : List (Nat × Nat) := []   -- (reference, value) pairs ever delivered with resolved = true
+  told : List (Nat × Nat) := []   -- (reference, entry) pairs ever delivered with resolved = true
+  latest : Option Nat := none
   relInv : List Nat := []
   inval : List Nat := []          -- entries whose released() callback has been called
   ctxCalls : List Nat := []       -- SetContext / ClearContext calls in flight
 deriving Repr
 
 /-- **C08 clause 2 (not while held).** The release function of entry `k` does not run while a
-reference that was given `k`'s value is still held (its `Release` not yet invoked), unless the value
+reference that was given `k`'s result is still held (its `Release` not yet invoked), unless the value
 was invalidated: `released()` of `k` was called, or a context change is in progress. -/
 def monHeld : ObsMonitor Obs HeldSt where
   init := {}
   step := fun m o =>
     match o with
-    | .cbinRefcb r true v _ => some { m with told := (r, v) :: m.told }
+    | .cboutResolver k _ _ _ => some { m with latest := some k }
+    | .cbinRefcb r true _ _ =>
+      match m.latest with
+      | some k => some { m with told := (r, k) :: m.told }
+      | none => none     -- a result was delivered although no resolver has returned
     | .invRelease _ r => some { m with relInv := r :: m.relInv }
     | .envReleased k => some { m with inval := k :: m.inval }
     | .invSetCtx a _ _ => some { m with ctxCalls := a :: m.ctxCalls }
     | .retSetCtx a _ => some { m with ctxCalls := m.ctxCalls.erase a }
     | .cbinRel k _ =>
       if m.inval.contains k || !m.ctxCalls.isEmpty then some m
-      else if m.told.any (fun p => p.2 = k + 1 && !m.relInv.contains p.1) then none
+      else if m.told.any (fun p => p.2 = k && !m.relInv.contains p.1) then none
       else some m
     | _ => some m
 
@@ -117,28 +135,39 @@ structure EvSt where
   relInv : List Nat := []
   ctxCalls : List Nat := []
   ctx : Option Nat := none        -- the container context when it is known (no overlapping SetContext)
+  inval : List Nat := []          -- entries whose released() was called, or that had returned when a
+                                  -- SetContext reported a context change
+  returned : List Nat := []       -- entries that have returned
+  ctxSnap : List (Nat × List Nat) := []   -- per SetContext call in flight: the entries that had returned when it was invoked
 deriving Repr
 
 /-- **C08 clause 3 (no leak).** At a quiescence point every release function that was returned and
-not yet called belongs to the latest resolver result, and that result is kept only if a reference
-is held or (keep-unreferenced and no error), and the context is set. -/
+not yet called belongs to the latest resolver result; that result was not invalidated (`released()`
+called, or a SetContext invoked after it returned reported a change); it is kept only if a reference is held or
+(keep-unreferenced and no error), and the context is set. -/
 def monEventually : ObsMonitor Obs EvSt where
   init := {}
   step := fun m o =>
     match o with
     | .cfg keep ctx _ => some { m with keep := keep, ctx := some ctx }
     | .cboutResolver k _ hasRel err =>
-      some { m with latest := some k, unrel := if hasRel then (k, err) :: m.unrel else m.unrel }
+      some { m with latest := some k, returned := k :: m.returned
+                    unrel := if hasRel then (k, err) :: m.unrel else m.unrel }
     | .cbinRel k _ => some { m with unrel := m.unrel.filter (·.1 != k) }
     | .retAddRef a => some { m with added := a :: m.added }
     | .invRelease _ r => some { m with relInv := r :: m.relInv }
+    | .envReleased k => some { m with inval := k :: m.inval }
     | .invSetCtx a c _ =>
-      some { m with ctxCalls := a :: m.ctxCalls, ctx := if m.ctxCalls.isEmpty then some c else none }
-    | .retSetCtx a _ => some { m with ctxCalls := m.ctxCalls.erase a }
+      some { m with ctxCalls := a :: m.ctxCalls, ctx := if m.ctxCalls.isEmpty then some c else none
+                    ctxSnap := (a, m.returned) :: m.ctxSnap }
+    | .retSetCtx a upd =>
+      let snap := ((m.ctxSnap.find? (·.1 == a)).map (·.2)).getD []
+      some { m with ctxCalls := m.ctxCalls.erase a
+                    inval := if upd == some true then snap ++ m.inval else m.inval }
     | .quiesce _ =>
       let held := m.added.filter (fun r => !m.relInv.contains r)
-      if m.unrel.all (fun p => some p.1 == m.latest && (!held.isEmpty || (m.keep && p.2 == 0)) &&
-            m.ctx != some 0) then some m else none
+      if m.unrel.all (fun p => some p.1 == m.latest && !m.inval.contains p.1 &&
+            (!held.isEmpty || (m.keep && p.2 == 0)) && m.ctx != some 0) then some m else none
     | _ => some m
 
 abbrev monC08 := (monOnce.rcBoth monHidden).rcBoth (monHeld.rcBoth monEventually)
@@ -179,6 +208,8 @@ structure ProgSt where
   latestK : Option Nat := none
   probe : Option (Nat × Nat) := none
   kinds : List (Nat × Bool) := []
+  withRel : List Nat := []                 -- entries that returned a release function
+  relSeen : List Nat := []                 -- entries whose release function has run
 deriving Repr
 
 def lastOf (l : List (Nat × Bool × Nat × Nat)) (r : Nat) : Option (Bool × Nat × Nat) :=
@@ -187,7 +218,8 @@ def lastOf (l : List (Nat × Bool × Nat × Nat)) (r : Nat) : Option (Bool × Na
 /-- **C09 (progress, delivery, restart).** At a quiescence point at which the context is known to be
 set and live and a reference is held: a resolver call is running, or the latest result has been
 delivered to the target containers (probe) and to every held recording reference (late ones
-included); and an entry whose `released()` was called is not the delivered one. -/
+included); an entry whose `released()` was called is not the delivered one, and its release function
+(if it returned one) has run. -/
 def monProgress : ObsMonitor Obs ProgSt where
   init := {}
   step := fun m o =>
@@ -203,10 +235,15 @@ def monProgress : ObsMonitor Obs ProgSt where
     | .envCancelCtx c => some { m with dead := c :: m.dead }
     | .envReleased k => some { m with released := k :: m.released }
     | .cbinResolver k => some { m with running := some k }
-    | .cboutResolver k v _ e => some { m with running := none, latest := some (v, e), latestK := some k }
+    | .cboutResolver k v h e =>
+      some { m with running := none, latest := some (v, e), latestK := some k
+                    withRel := if h then k :: m.withRel else m.withRel }
+    | .cbinRel k _ => some { m with relSeen := k :: m.relSeen }
     | .cbinRefcb r res v e => some { m with last := (r, res, v, e) :: m.last.filter (·.1 != r) }
     | .probe v e => some { m with probe := some (v, e) }
     | .quiesce _ =>
+      -- released_restarts: calling released() makes the value be dropped (by the next quiescence point)
+      if m.released.any (fun k => m.withRel.contains k && !m.relSeen.contains k) then none else
       let held := m.added.filter (fun p => !m.relInv.contains p.1)
       let live := match m.ctx with
         | some c => c != 0 && !m.dead.contains c
